@@ -40,6 +40,12 @@ CHECKS = {
  "C17": ("engine-b", "model_checking", B,
          "the composer's renaming pass (real code) on every ordered pair of sibling names of length <= 2 / <= 3 over a 13-character adversarial alphabet, triples of 1-character names, pre-existing x_sdn_N_ names in every processing order, length-boundary families (254..300, shared prefixes); every namespace scope end to end through compose + parse; identifiers legal (independent regex), pairwise distinct ignoring case, rename recorded, re-read names equal the originals",
          "bounded alphabet and lengths as stated; net names of the form name[i] excluded end-to-end (claimed by the reader's bus convention)"),
+ "C06": ("engine-b", "model_checking", B,
+         "Verilog texts rendered by an independent writer (vlib/verilog_writer.py): a rich base design (escaped identifiers, parameters, attributes, positional and named maps, `celldefine and never-declared primitives, constants, empty connections, part-select assigns, wire ranges not based at 0) in every module order x header/ANSI ports x comments; module chains of depth 3-5 in every declaration order; and, for an instance port of width 1..3, every connection expression of the grammar id | id[i] | id[h:l] | 1'b0 | 1'b1 | {e,e} | empty x named/positional x target declared before/after/`celldefine/never. The parsed bit-level structure must equal the model",
+         "bounded: widths <= 3, concatenations of 2; an empty positional connection is excluded (not in the documented subset); trusted: the independent writer and its bit-level model"),
+ "C04": ("engine-b", "model_checking", B,
+         "every reader-built netlist of the input space (C06 texts, bundled .v files under a byte cap) x transform (identity, uniquify, uniquify+flatten, clone) x composer options (write_blackbox, defparam) is written and read back; cables, per-bit endpoints, instances with parameters/attributes, assign bit pairs and ports must be equal over the modules reachable from the top",
+         "names compared modulo Verilog escaping (IEEE 1364); inferred black-box ports are written inout (documented); with write_blackbox=False only primitive port names are compared"),
 }
 m = {
  "version": 1,
